@@ -192,6 +192,25 @@ pub fn random_string_where(rng: &mut StdRng, min: usize, max: usize, ok: impl Fn
             return cand;
         }
     }
+    // names that ARE names for XML and carry a 2-, 3- or 4-byte character at every early byte offset (0 to 3 letters before it),
+    // with or without the reserved prefix "xml" in any case
+    if nonascii && rng.gen_bool(0.25) {
+        let wide = ['é', 'ÿ', 'Ж', '日', '\u{fffd}', '😀'];
+        let lead = rng.gen_range(0 ..= 3usize);
+        let mut cand: String = match rng.gen_range(0 .. 6) {
+            0 => ["xml", "XML", "Xml", "xmL"][rng.gen_range(0 .. 4)].to_string(),
+            1 => "xm".to_string(),
+            _ => (0 .. lead).map(|_| rng.gen_range(b'a' ..= b'z') as char).collect(),
+        };
+        cand.push(wide[rng.gen_range(0 .. wide.len())]);
+        for _ in 0 .. rng.gen_range(0 ..= 2usize) {
+            cand.push(if rng.gen_bool(0.5) { wide[rng.gen_range(0 .. wide.len())] } else { rng.gen_range(b'a' ..= b'z') as char });
+        }
+        let n = cand.chars().count();
+        if n >= min && n <= max && cand.chars().all(&ok) {
+            return cand;
+        }
+    }
     let mut s = String::new();
     let mut tries = 0;
     while s.chars().count() < n {
